@@ -6,6 +6,7 @@ executable `dassh_model` (everything it imports is Mathlib-free).
 import Dassh.Model.AxialMesh
 import Dassh.Model.Mesh
 import Dassh.Model.Peaks
+import Dassh.Model.Pressure
 
 open Dassh.Model
 
@@ -25,6 +26,12 @@ def showMatrix (m : List (List Float)) : String :=
 
 def splitBar (ws : List String) : List String × List String :=
   (ws.takeWhile (· ≠ "|"), (ws.dropWhile (· ≠ "|")).drop 1)
+
+instance : NatCast Float := ⟨Float.ofNat⟩
+
+def floatPairs : List Float → List (Float × Float)
+  | a :: b :: t => (a, b) :: floatPairs t
+  | _ => []
 
 def handle (line : String) : String :=
   match (line.trimAscii.toString.splitOn " ").filter (· ≠ "") with
@@ -60,12 +67,18 @@ def handle (line : String) : String :=
   | "peak" :: rest =>
     match floatList rest with
     | some vs =>
-      let rec pairs : List Float → List (Float × Float)
-        | a :: b :: t => (a, b) :: pairs t
-        | _ => []
-      let r := Peaks.run ((0.0 : Float), (0.0 : Float)) (pairs vs)
+      let r := Peaks.run ((0.0 : Float), (0.0 : Float)) (floatPairs vs)
       "ok " ++ showFloats [r.1, r.2]
     | none => "bad-op"
+  | "dp" :: strict :: rest =>
+    -- dp <0|1> cf cg kloss | grids... | z dz z dz ...
+    let (coef, r1) := splitBar rest
+    let (gs, st) := splitBar r1
+    match floatList coef, floatList gs, floatList st with
+    | some [cf, cg, kl], some grids, some vs =>
+      let r := Pressure.sweep (strict == "1") grids cf cg kl (floatPairs vs)
+      "ok " ++ showFloats [r.1, r.2.1, r.2.2]
+    | _, _, _ => "bad-op"
   | _ => "bad-op"
 
 partial def loop (h : IO.FS.Stream) : IO Unit := do
